@@ -112,6 +112,11 @@ inline T_Wrap<T_Rhs*, T_Sbx> memset(rlbox_sandbox<T_Sbx>& sandbox,
                                     T_Num num)
 {
 
+  static_assert(!detail::rlbox_is_wrapper_of_other_sandbox_v<T_Val, T_Sbx> &&
+                  !detail::rlbox_is_wrapper_of_other_sandbox_v<T_Num, T_Sbx>,
+                "memset called with a value of a different sandbox type");
+
+
   static_assert(detail::rlbox_is_tainted_or_vol_v<T_Wrap<T_Rhs, T_Sbx>>,
                 "memset called on non wrapped type");
 
@@ -160,6 +165,11 @@ inline T_Wrap<T_Rhs*, T_Sbx> memcpy(rlbox_sandbox<T_Sbx>& sandbox,
                                     T_Num num)
 {
 
+  static_assert(!detail::rlbox_is_wrapper_of_other_sandbox_v<T_Lhs, T_Sbx> &&
+                  !detail::rlbox_is_wrapper_of_other_sandbox_v<T_Num, T_Sbx>,
+                "memcpy called with a value of a different sandbox type");
+
+
   static_assert(detail::rlbox_is_tainted_or_vol_v<T_Wrap<T_Rhs, T_Sbx>>,
                 "memcpy called on non wrapped type");
 
@@ -193,6 +203,11 @@ inline tainted_int_hint memcmp(rlbox_sandbox<T_Sbx>& sandbox,
                                T_Lhs&& src,
                                T_Num&& num)
 {
+  static_assert(!detail::rlbox_is_wrapper_of_other_sandbox_v<T_Rhs, T_Sbx> &&
+                  !detail::rlbox_is_wrapper_of_other_sandbox_v<T_Lhs, T_Sbx> &&
+                  !detail::rlbox_is_wrapper_of_other_sandbox_v<T_Num, T_Sbx>,
+                "memcmp called with a value of a different sandbox type");
+
   static_assert(
     detail::rlbox_is_tainted_or_vol_v<detail::remove_cv_ref_t<T_Rhs>> ||
       detail::rlbox_is_tainted_or_vol_v<detail::remove_cv_ref_t<T_Lhs>>,
